@@ -266,6 +266,43 @@ def instr_case(ctx, r):
     if what not in ('arg',) and int.from_bytes(i0.blob[:4], 'little') != 7: ctx.violation('narrowing:%s:other-field-damaged' % field, 'argument 7 became %s' % i0.blob[:4].hex(), replay); return
     readback(ctx, lg['tool'], game, mapfile, field, replay)
 
+def absent_pseudo_case(ctx, r):
+    """A pseudo-argument that names an instruction-header field which this instruction format does not have (`@arg0=` outside
+    TH06/TH07 timelines, `@mask=` where instructions carry no parameter mask, `@pop=`/`@nargs=` outside TH10+ ECL): a non-zero
+    request cannot be stored anywhere, so the compile must not succeed in silence (an error, or at least a warning, is required)."""
+    lg = r.pick(INSTR_LANGS); game = r.pick(lg['game' + 's'])
+    cands = []
+    if not lg['extra_bits']: cands.append('arg0')
+    if not lg['mask_bits']: cands.append('mask')
+    if lg['key'] != 'ecl10': cands += ['pop', 'nargs']
+    if not cands: return
+    what = r.pick(cands); v = r.pick([0, 1, 1, 2, 5, 255, 4])
+    op = 900 if lg['op_bits'] > 8 else 90
+    hdrs = lg['maphdr'].split('\n')
+    sig = 'S__' if lg['key'] == 'std-06' else 'S'
+    mapfile = '%s\n%s\n%d %s\n' % (hdrs[0], hdrs[1] if len(hdrs) > 1 else '!ins_signatures', op, sig)
+    text = lg['wrap'](game, '5: ins_%d(@%s=%d, 7);' % (op, what, v))
+    field = '%s.%s:absent-field' % (lg['key'], what)
+    replay = {'field': field, 'game': game, 'value': v, 'text': text, 'mapfile': mapfile}
+    src = ctx.write('c03.txt', text); out = os.path.join(ctx.dir, 'c03.bin')
+    if os.path.exists(out): os.unlink(out)
+    c = ctx.cli({'tool': lg['tool'], 'cmd': 'compile', 'game': game, 'in': src, 'out': out, 'maps': [ctx.write('c03.map', mapfile)]})
+    ctx.evaluations += 1
+    if 'panic' in c or 'abort' in c: ctx.inconcl('compile crash (C04)'); return
+    ctx.seen('fields', field)
+    if not c.get('ok'):
+        if not core.has_error_diag(c.get('diag', '')): ctx.violation('narrowing:%s:fails-without-diagnostic' % lg['tool'], 'compile failed with no error diagnostic', replay); return
+        ctx.count('rejected_with_diagnostic'); ctx.seen('reject_reasons', field + ': ' + core.norm_msg(core.headline(c.get('diag', '')))[:70]); return
+    if v != 0 and not core.warnings_of(c.get('diag', '')):
+        ctx.violation('narrowing:%s:dropped-silently' % field, '@%s=%d was accepted without any diagnostic although %s instructions of %s have no such field' % (what, v, lg['key'], game), replay); return
+    data = ctx.read(out)
+    try: ins = first_instrs(lg, lg['parse'](data, game))
+    except (L.LayoutError, struct.error, IndexError, ValueError, TypeError) as e:
+        ctx.violation('narrowing:%s:file-corrupt' % field, 'compile succeeded but the file does not parse (%s)' % e, replay); return
+    if len(ins) != 1 or ins[0].opcode != op or ins[0].time != 5 or int.from_bytes(ins[0].blob[:4], 'little') != 7:
+        ctx.violation('narrowing:%s:other-field-damaged' % field, 'the instruction written is not ins_%d(7) at time 5' % op, replay); return
+    ctx.count('accepted_and_verified'); ctx.fp('field', '%s %s %d' % (field, game, v))
+
 # ------------------------------------------------------------------------------------------ meta fields
 def meta_case(ctx, r):
     k = r.wpick([('anm', 4), ('std', 4), ('msg', 2), ('mission', 2), ('std-str', 1.5), ('anm-img', 1.5)])
@@ -480,7 +517,8 @@ def run_shard(ctx):
     for i in range(n):
         k = r.random()
         if k < 0.05: string_table_case(ctx, r)
-        elif k < 0.62: instr_case(ctx, r)
+        elif k < 0.58: instr_case(ctx, r)
+        elif k < 0.62: absent_pseudo_case(ctx, r)
         else: meta_case(ctx, r)
 
 def replay(path):
